@@ -435,7 +435,7 @@ impl<'a> ReadAdapter<'a> {
     /// Fill `self.buf` with `count` bytes
     ///
     /// This should only be called when we can't read from the reader directly
-    fn buffer_at_least(&mut self, mut count: usize) -> Result<(), DeserializationError> {
+    fn buffer_at_least(&mut self, count: usize) -> Result<(), DeserializationError> {
         // Read until we have at least `count` bytes, or until we reach end-of-file,
         // which ever comes first.
         loop {
@@ -456,7 +456,6 @@ impl<'a> ReadAdapter<'a> {
             let consumed = buf.len();
             self.buf.extend_from_slice(buf);
             reader.consume(consumed);
-            count = count.saturating_sub(consumed);
         }
     }
 }
